@@ -88,10 +88,11 @@ def double_run(res, ctx, root, fname, body, args_extra, t, mode, label, rng, n_r
     lic = str(f) + ".license"
     if os.path.exists(lic):
         os.unlink(lic)
-    args = ["--no-multiprocessing", "--root", str(root), "annotate"] + args_extra + ([mode] if mode else []) + [str(f)]
+    cwd, gargs, fargs = annot.place(rng, root, [f])
+    args = gargs + ["annotate"] + args_extra + ([mode] if mode else []) + fargs
     states = []
     for i in range(n_runs):
-        r = run_cli(args, cwd=str(root))
+        r = run_cli(args, cwd=cwd)
         if r.escaped:
             res.violation("escaped-exception", f"annotate run {i + 1}: {r.exc_type}", tb=r.exc_tb, args=args[4:])
             return
